@@ -111,11 +111,18 @@ pub(crate) mod verif_hook {
         pub(crate) static WRITES: Cell<u64> = Cell::new(0);
         /// when non-zero: unwind instead of performing the write with this ordinal
         pub(crate) static CRASH_AT: Cell<u64> = Cell::new(0);
+        /// called with the ordinal of the write that is about to happen (the store still shows the state before it)
+        pub(crate) static ON_WRITE: std::cell::RefCell<Option<Box<dyn Fn(u64)>>> = std::cell::RefCell::new(None);
     }
     pub(crate) fn before_write() {
         let n = WRITES.with(|w| {
             w.set(w.get() + 1);
             w.get()
+        });
+        ON_WRITE.with(|f| {
+            if let Some(f) = f.borrow().as_ref() {
+                f(n)
+            }
         });
         if CRASH_AT.with(|c| c.get()) == n {
             panic!("verif: simulated crash before storage write {}", n);
